@@ -157,11 +157,29 @@ fn ser_json<R: Codec>(s: Option<Vec<(R::Op, R::Ret)>>) -> (bool, Value) {
     }
 }
 
-fn replay_one<R>(h: &[Value]) -> Value
+fn lin_to_json<R>(t: &LinearizabilityTester<u8, R>) -> String
 where
     R: Codec,
-    R::Op: Clone + Debug + PartialEq,
-    R::Ret: Clone + Debug + PartialEq,
+    R::Op: Debug,
+    R::Ret: Debug,
+{
+    // Debug of the derived struct lists every field that takes part in the derived Hash / Eq
+    format!("{:?}", t)
+}
+fn sc_to_json<R>(t: &SequentialConsistencyTester<u8, R>) -> String
+where
+    R: Codec,
+    R::Op: Debug,
+    R::Ret: Debug,
+{
+    format!("{:?}", t)
+}
+
+fn replay_one<R>(h: &[Value]) -> Value
+where
+    R: Codec + std::hash::Hash,
+    R::Op: Clone + Debug + PartialEq + std::hash::Hash,
+    R::Ret: Clone + Debug + PartialEq + std::hash::Hash,
 {
     // full replay, recording Ok/Err of each call
     let mut lin = LinearizabilityTester::<u8, R>::new(R::init());
@@ -192,8 +210,13 @@ where
         // the extended clones equal the fully replayed testers
         peq = clin == lin && csc == sc;
     }
+    // identity of the testers as values (C04): hasher byte stream vs canonical rendering
+    let lin_key = serde_json::to_string(&lin_to_json(&lin)).unwrap_or_default();
+    let sc_key = serde_json::to_string(&sc_to_json(&sc)).unwrap_or_default();
     json!({
         "h": h,
+        "lin_stream": crate::actors::stream_of(&lin), "lin_key": lin_key,
+        "sc_stream": crate::actors::stream_of(&sc), "sc_key": sc_key,
         "lin": {"calls": lin_calls, "consistent": lin.is_consistent(), "has_ser": lin_has, "ser": lin_ser, "len": lin.len()},
         "sc": {"calls": sc_calls, "consistent": sc.is_consistent(), "has_ser": sc_has, "ser": sc_ser, "len": sc.len()},
         "parent_before": pb, "parent_after": pa, "clone_eq_replay": peq
